@@ -137,8 +137,46 @@ def check(sid, tier, checks):
     return 0
 
 
+def applyrun(sids):
+    """The literal procedure: git -C /repo apply, ./check, git -C /repo checkout -- . (needs /repo to itself)."""
+    rc_all = 0
+    for sid in sids:
+        d = os.path.join(VERIF, "seeded", sid)
+        meta = json.load(open(os.path.join(d, "meta.json")))
+        st = subprocess.check_output(["git", "-C", "/repo", "status", "--porcelain"], text=True).strip()
+        if st:
+            print("refusing: /repo is not clean:", st)
+            return 2
+        try:
+            if subprocess.call(["git", "-C", "/repo", "apply", os.path.join(d, "patch.diff")]) != 0:
+                # fall back to a 3-way / fuzzy application (the tree moved on since the seed was written)
+                if subprocess.call("cd /repo && patch -p1 -F3 -s < %s" % os.path.join(d, "patch.diff"), shell=True) != 0:
+                    print(sid, "patch does not apply")
+                    rc_all = 3
+                    continue
+            checks = sorted(set(re.findall(r"(C\d\d) \(", meta.get("caught_by", "")))) or [meta["property"]]
+            res = []
+            for p_ in checks:
+                r = subprocess.run([os.path.join(VERIF, "check"), p_, "--no-evidence"], cwd=VERIF, stdout=subprocess.PIPE, stderr=subprocess.STDOUT, text=True)
+                res.append("%s rc=%d" % (p_, r.returncode))
+                if r.returncode == 1:
+                    break
+            det = any(x.endswith("rc=1") for x in res)
+            print(sid, "DETECTED" if det else "MISSED", res, flush=True)
+            meta["git_apply_run"] = "git -C /repo apply; " + "; ".join(res) + "; git -C /repo checkout -- ."
+            json.dump(meta, open(os.path.join(d, "meta.json"), "w"), indent=1)
+            if not det:
+                rc_all = 1
+        finally:
+            subprocess.call(["git", "-C", "/repo", "checkout", "--", "."])
+            subprocess.call(["git", "-C", "/repo", "clean", "-fdq"])
+    return rc_all
+
+
 if __name__ == "__main__":
     a = sys.argv[1:]
+    if a and a[0] == "applyrun":
+        sys.exit(applyrun(a[1:] or sorted(os.listdir(os.path.join(VERIF, "seeded")))))
     if a and a[0] == "verify":
         ok, log = verify(a[1], a[2], a[3], "--full" in a)
         print("\n".join(log))
